@@ -680,6 +680,80 @@ def partialNodeOn (S : Schema) : Nat → List Node → Nat → Bool → Bool
 def Slice.noPartialNode (S : Schema) (sl : Slice) : Bool :=
   !partialNodeOn S sl.openEnd sl.content sl.openStart true
 
+/-! ### the invariant behind the end half of `fit_emits_wf` (Props/C11.lean), as a decidable predicate -/
+
+/-- `placed` and the frontier are **in step**: the frontier is not empty, every entry holds a match,
+    and the last-child chain of non-leaf nodes of `placed` is at least as long as the frontier is deep
+    (`add_to_fragment(placed, depth, …)` finds the node the top frontier entry stands for).  A
+    specification predicate over the model's state, evaluated by the driver (op `fitEmit`) in the state
+    `Fitter.__init__` builds and after every iteration of the loop. -/
+def FitState.inStepB (st : FitState) : Bool :=
+  !st.frontier.isEmpty && st.frontier.all (fun it => it.st.isSome) &&
+    decide (st.frontier.length - 1 ≤ spineR st.placed)
+
+/-- **the frontier is coherent with `placed`** (candidate key invariant for payload validity, Props/C11.lean
+    `fit_emits_valid_payload`, not yet proved; evaluated by the driver over every iteration, op `fitEmit`):
+    walking the last-child chain of `placed` level by level, the entry of level `i` has the type of the
+    node opened there and its match is the state of that type's automaton after the children counted
+    at that level.  `g` = the deepest level whose open node is still the one `Fitter.__init__` put there
+    (levels are closed and opened at the top only, so these levels form a prefix): for `i ≤ g` the count
+    starts from the state `Fitter.__init__` computed (`base[i]`, which already counts the child
+    containing `from`, so for `i < D = depth(from)` the first child is skipped); deeper levels were
+    opened by the Fitter and count all children from the start state. -/
+def frontierCoherentAux (S : Schema) (D g : Nat) (base : List FItem) : Nat → List FItem → List Node → Bool
+  | _, [], _ => true
+  | i, it :: rest, frag =>
+    let s0 : Option Nat := if i ≤ g then (base[i]?).bind (·.st) else some 0
+    let kids := if i ≤ g && decide (i < D) then frag.drop 1 else frag
+    (match s0 with
+     | some s => (S.dfa it.ty).run s (S.types kids) == it.st && it.st.isSome
+     | none => false) &&
+    (match rest with
+     | [] => true
+     | nxt :: _ =>
+       match frag.getLast? with
+       | some n => S.tyOf n == nxt.ty && frontierCoherentAux S D g base (i + 1) rest n.kids
+       | none => false)
+
+/-- coherent for some `g ≤ D` -/
+def FitState.coherentB (S : Schema) (D : Nat) (base : List FItem) (st : FitState) : Bool :=
+  (List.range (D + 1)).any (fun g => frontierCoherentAux S D g base 0 st.frontier st.placed)
+
+/-- every edge of a content automaton is labelled with a node type of the schema (true of every
+    compiled schema; decidable guard of `fit_emits_wf`, Props/C11.lean) -/
+def Schema.labelsOKB (S : Schema) : Bool :=
+  (List.range S.nodes.size).all (fun w => (List.range (S.dfa w).size).all (fun q =>
+    ((S.dfa w).edgesOf q).all (fun e => decide (e.1 < S.nodes.size))))
+
+/-- does `p` hold in the given state and after every iteration of the loop of `fit`?  `none` = the
+    run raises or runs out of fuel.  (Evaluation helper for hypotheses about the whole run, not a
+    model of library code.) -/
+def fitLoopAll (S : Schema) (p : FitState → Bool) : Nat → FitState → Option Bool
+  | 0, st => if st.unplaced.size == 0 then some (p st) else none
+  | fuel + 1, st =>
+    if st.unplaced.size == 0 then some (p st)
+    else match fitStep S st with
+      | .ok st' => (fitLoopAll S p fuel st').map (fun b => b && p st)
+      | .error _ => none
+
+/-- **the unplaced slice stays well-formed over the run** (`Slice.wf` in the state `Fitter.__init__`
+    builds and after every iteration; vacuously true when the Fitter is not reached).  `place_nodes`
+    keeps `open_start` when it stops short of the end of a fragment above the open level (also
+    upstream), after which `open_start` can exceed the first-child chain: on such runs this is false.
+    Decidable hypothesis of `fit_emits_wf` (Props/C11.lean), evaluated by the driver (op `fitEmit`). -/
+def unplacedWfRun (S : Schema) (doc : Node) (f t : Nat) (sl : Slice) : Bool :=
+  if f == t && sl.size == 0 then true
+  else
+    match doc.resolve f, doc.resolve t with
+    | some rf, some rt =>
+      match fitsTriviallyR S rf rt sl with
+      | some false =>
+        match fitInit S rf sl with
+        | .ok st0 => fitLoopAll S (fun st => st.unplaced.wf) (fitFuel S sl) st0 == some true
+        | .error _ => true
+      | _ => true
+    | _, _ => true
+
 /-! ### decidable hypotheses of the deletion-totality theorem (Props/C11.lean `delete_total`) -/
 
 /-- every generatable type that labels an edge of a content automaton — every type `fill_before` can
